@@ -562,7 +562,10 @@ def std_run_unit(mod):
                 acc.flags[f] += 1
             acc.outcomes.add(res.outcome if not res.viols else "VIOL:" + res.viols[0][0])
             for sig, detail in res.viols:
-                acc.violation(sig, case, detail, res.tags)
+                # modules whose behaviour may depend on what ran earlier in the process record the unit and the position
+                # of the case in it: the replay then re-runs the unit's prefix in a brand-new process
+                vcase = {"unit": unit, "index": k, "case": case} if getattr(mod, "FRESH_WORKERS", False) else case
+                acc.violation(sig, vcase, detail, res.tags)
             if k == want and (res.nontrivial or not acc.samples):
                 acc.sample(case)
             elif k > want and not acc.samples and res.nontrivial:
@@ -573,5 +576,16 @@ def std_run_unit(mod):
 
 def std_replay(mod):
     def replay(case, ctx):
+        if isinstance(case, dict) and set(case) == {"unit", "index", "case"}:
+            unit = case["unit"]
+            unit = tuple(unit) if isinstance(unit, list) else unit
+            res = None
+            for k, c in enumerate(mod.gen_cases(unit, ctx)):
+                res = mod.check_case(c, ctx)
+                if k == case["index"]:
+                    if jkey(c) != jkey(case["case"]):
+                        raise HarnessError("replay: the unit enumerates differently from the recorded run")
+                    return list(res.viols)
+            return []
         return list(mod.check_case(case, ctx).viols)
     return replay
